@@ -141,12 +141,52 @@ def sensitivity(scratch: str, only: str | None = None) -> int:
     return bad
 
 
+def specificity(scratch: str, only: str | None = None) -> int:
+    """Behaviour-preserving refactors written by independent agents (benign/*/patch.diff): every listed check
+    must stay silent (exit 0, no VIOLATION line) when run against the refactored sources."""
+    bdir = os.path.join(driver.VERIF, "benign")
+    bad = 0
+    if not os.path.isdir(bdir):
+        return 0
+    for name in sorted(os.listdir(bdir)):
+        mp = os.path.join(bdir, name, "meta.json")
+        if not os.path.exists(mp) or (only is not None and only not in name):
+            continue
+        props = sorted(json.load(open(mp))["quick_checks_against_patched_sources"])
+        work = tempfile.mkdtemp(prefix="y0sim-ben-", dir=os.environ.get("TMPDIR") or "/tmp")
+        try:
+            shutil.copytree("/repo/src", os.path.join(work, "src"), ignore=shutil.ignore_patterns("__pycache__"))
+            p = subprocess.run(["patch", "-p1", "-s", "-d", work, "-i", os.path.join(bdir, name, "patch.diff")],
+                               capture_output=True, text=True)
+            if p.returncode != 0:
+                print(f"SELFTEST-FAIL specificity {name}: patch does not apply: {p.stdout[-300:]}{p.stderr[-300:]}")
+                bad += 1
+                continue
+            for prop in props:
+                env = dict(os.environ)
+                env["Y0SIM_SRC"] = os.path.join(work, "src")
+                env["Y0SIM_EVIDENCE_DIR"] = os.path.join(work, "evidence")
+                env["Y0SIM_REPLAY_DIR"] = os.path.join(work, "replays")
+                t0 = time.time()
+                r = subprocess.run([driver.PY, os.path.join(driver.HERE, "main.py"), prop, "--tier", "quick"],
+                                   env=env, capture_output=True, text=True, timeout=3600)
+                if r.returncode == 0 and "VIOLATION" not in r.stdout:
+                    print(f"selftest specificity {name}: {prop} silent in {time.time() - t0:.0f}s", flush=True)
+                else:
+                    print(f"SELFTEST-FAIL specificity {name}: {prop} quick tier exit={r.returncode} on a behaviour-preserving refactor")
+                    print(r.stdout[-1500:], r.stderr[-600:])
+                    bad += 1
+        finally:
+            shutil.rmtree(work, ignore_errors=True)
+    return bad
+
+
 def run(quick: bool, scratch: str) -> int:
     t0 = time.time()
     only = os.environ.get("Y0SIM_ONLY_MUTANT")
     if only:
-        bad = sensitivity(scratch, only)
-        print(f"selftest sensitivity (only {only}): {'OK' if not bad else 'FAILURES'}")
+        bad = sensitivity(scratch, only) + specificity(scratch, only)
+        print(f"selftest sensitivity/specificity (only {only}): {'OK' if not bad else 'FAILURES'}")
         return 0 if not bad else 2
     for fn in sorted(os.listdir(driver.HERE)):
         if fn.endswith(".py"):
@@ -155,5 +195,6 @@ def run(quick: bool, scratch: str) -> int:
     bad += determinism(quick, scratch)
     if not quick:
         bad += sensitivity(scratch)
+        bad += specificity(scratch)
     print(f"selftest {'quick' if quick else 'thorough'}: {'OK' if not bad else str(bad) + ' FAILURES'} in {time.time() - t0:.0f}s")
     return 0 if not bad else 2
